@@ -71,6 +71,15 @@ pub fn replay(id: &str, path: &str) -> i32 {
 }
 
 pub fn worker_main(args: &[String]) -> i32 {
+    // a worker must not outlive its parent (the parent may be stopped by a watchdog while the
+    // worker spins inside the code under test)
+    let ppid = std::os::unix::process::parent_id();
+    std::thread::spawn(move || loop {
+        std::thread::sleep(std::time::Duration::from_millis(500));
+        if std::os::unix::process::parent_id() != ppid {
+            std::process::exit(9);
+        }
+    });
     match args.first().map(|s| s.as_str()) {
         Some("corpus-stats") => {
             // debugging aid: compile time and size of every corpus program (isolated per program by
@@ -92,6 +101,24 @@ pub fn worker_main(args: &[String]) -> i32 {
                     crate::gl::CompileOutcome::Crashed(m) => println!("{i} {dt:.3}s CRASH {m} {origin}"),
                 }
             }
+            0
+        }
+        Some("run") => {
+            // triage aid: gverif worker run '<program>' <arg literal>...  -> compiles main and evaluates it
+            let Some(prg) = args.get(1) else { return 2 };
+            let r = crate::util::catch(|| -> Result<String, String> {
+                let p = garble_lang::compile(prg).map_err(|e| format!("rejected: {}", e.prettify(prg)))?;
+                let mut inputs = vec![];
+                for (i, a) in args[2..].iter().enumerate() {
+                    inputs.push(p.parse_arg(i, a).map_err(|e| format!("bad argument {a}: {e:?}"))?.as_bits());
+                }
+                let out = p.circuit.eval(&inputs);
+                Ok(match p.parse_output(&out) {
+                    Ok(l) => format!("{l}   [{} gates, {} and]", crate::gl::ssa(&p).gates.len(), crate::gl::ssa(&p).and_gates()),
+                    Err(e) => format!("{e:?}"),
+                })
+            });
+            println!("{r:?}");
             0
         }
         Some("compile-hash") => c06::worker(&args[1..]),
